@@ -140,3 +140,84 @@ func c07StateCarry(p *Prog) *RuleResult {
 	r.Floor(1)
 	return r
 }
+
+// C07/R6 offset hand-over.
+//
+// generateChunkJS / generateChunkCSS accumulate in `prevOffset` the lines and columns of everything
+// appended to the chunk since the last *mapped* file, save the value as the file's generatedOffset
+// and hand it to the source-map joiner with the file's entry. The joiner adds the offsets of the
+// entries up. The accumulator therefore has to be reset exactly when an entry takes its value:
+// an entry that carries an offset while the accumulator keeps running (the "null entry" of a file
+// without mappings) makes the next mapped file count the same lines twice, and every later mapping
+// of the chunk lands too low. Rule: on every path from the save of generatedOffset to an append of
+// an entry whose generatedOffset field is set, prevOffset is reset to its zero value.
+func c07OffsetHandover(p *Prog) *RuleResult {
+	r := NewRule("C07/R6 offset-handover", "a source-map entry carries the accumulated generated offset only on paths that reset the accumulator (otherwise the lines since the last mapped file are counted twice)")
+	for _, name := range []string{"linker.(*linkerContext).generateChunkJS", "linker.(*linkerContext).generateChunkCSS"} {
+		fn := p.FindFunc(name)
+		if !r.Anchor(name, fn != nil) {
+			continue
+		}
+		var acc *ssa.Alloc
+		eachInstr(fn, func(b *ssa.BasicBlock, in ssa.Instruction) {
+			if al, ok := in.(*ssa.Alloc); ok && al.Comment == "prevOffset" && namedTypeName(al.Type()) == "sourcemap.LineColumnOffset" {
+				acc = al
+			}
+		})
+		if !r.Anchor(name+": the running offset prevOffset", acc != nil) {
+			continue
+		}
+		resets := map[*ssa.BasicBlock]bool{}
+		var saves []*ssa.Store
+		var carries []*ssa.Store
+		eachInstr(fn, func(b *ssa.BasicBlock, in ssa.Instruction) {
+			st, ok := in.(*ssa.Store)
+			if !ok {
+				return
+			}
+			if st.Addr == ssa.Value(acc) {
+				if cv, ok := st.Val.(*ssa.Const); ok && cv.Value == nil && b != acc.Block() {
+					resets[b] = true
+				}
+				return
+			}
+			fa, ok := st.Addr.(*ssa.FieldAddr)
+			if !ok || fieldAddrName(fa) != "generatedOffset" {
+				return
+			}
+			// the save: compileResult.generatedOffset = prevOffset
+			if u, ok := st.Val.(*ssa.UnOp); ok && u.X == ssa.Value(acc) {
+				saves = append(saves, st)
+				return
+			}
+			// an entry literal that takes an offset
+			if al, ok := fa.X.(*ssa.Alloc); ok && al.Comment == "complit" {
+				if cv, ok := st.Val.(*ssa.Const); ok && cv.Value == nil {
+					return // explicitly zero
+				}
+				carries = append(carries, st)
+			}
+		})
+		if !r.Anchor(name+": save of generatedOffset from prevOffset", len(saves) >= 1) || !r.Anchor(name+": an entry that carries the offset", len(carries) >= 1) || !r.Anchor(name+": a reset of prevOffset", len(resets) >= 1) {
+			continue
+		}
+		for i, cst := range carries {
+			r.Instances++
+			key := fmt.Sprintf("%s entry #%d carrying generatedOffset", FuncName(fn), i+1)
+			bad := ""
+			for _, sv := range saves {
+				target := cst.Block()
+				if path, reach := reachesExitAvoiding(sv.Block(), func(x *ssa.BasicBlock) bool { return x == target }, func(x *ssa.BasicBlock) bool { return resets[x] }, true); reach {
+					bad = blockPath(path)
+				}
+			}
+			if bad != "" {
+				r.Fail(key, p.Pos(cst.Pos()), "an entry is handed the accumulated offset on a path that does not reset prevOffset ("+bad+"): the next mapped file's offset still contains these lines, so the joiner counts them twice and every later mapping in the chunk is shifted")
+			} else {
+				r.OK(key, true, "every path from the save to this entry resets prevOffset")
+			}
+		}
+	}
+	r.Floor(2)
+	return r
+}
